@@ -118,6 +118,25 @@ def handle (m : String) (j : Json) : Except String Json := do
     let c ← parseCache (← getStr j "cache")
     let k ← parseKey (← j.getObjVal? "key")
     pure (match specF c k with | some v => keyToJson v | none => Json.null)
+  | "c19.datetime" =>
+    -- what `Functions.datetime` makes of the object the cache returned; "tz": minutes or null (`timezone: False`)
+    let tz : Option Int := match optField j "tz" with
+      | some t => (t.getInt?).toOption
+      | none => none
+    let v ← parseKey (← j.getObjVal? "v")
+    pure (keyToJson (datetimeFn tz v))
+  | "c19.dialects" =>
+    -- one plugin_options dict passed to a list of generate() calls: the dialect of every call
+    let copies ← getBool j "copies"
+    let dj ← getArr j "dict"
+    let d ← dj.toList.mapM (fun e => do
+      let a ← e.getArr?
+      let k ← (a[0]?.getD Json.null).getStr?
+      let v ← (a[1]?.getD Json.null).getInt?
+      pure (k, v))
+    let vj ← getArr j "versions"
+    let vs : List (Option Int) := vj.toList.map (fun x => (x.getInt?).toOption)
+    pure (Json.arr ((dialects copies d vs).map intJ).toArray)
   | "c19.pyeq" =>
     let a ← parseKey (← j.getObjVal? "a")
     let b ← parseKey (← j.getObjVal? "b")
